@@ -6,6 +6,10 @@ import os
 VERIF = os.path.dirname(os.path.dirname(os.path.abspath(__file__)))
 
 CLAIMED = {
+    "C14": dict(level="exploration", design="3/C14",
+                technique="deterministic simulation: seeded merge/split/text/resize histories with held cell handles and checkpoint/restart against a grid reference model; deterministic sweep of all single merges on shapes <=4x4",
+                text="Seeded search over table operation histories (merge in any corner orientation, overlapping and cross-table merges, split, cell text, row/column resize) with cell handles held across operations and restarts in between, checked operation by operation against a grid reference model (disjoint rectangles, span readings, refused operations leave the part byte-identical, text migration order, frame size = sums), plus a complete depth-1 sweep on every table shape up to 4x4. The statement's depth-3 exhaustive sweep is not claimed.",
+                note="trusted: the grid model in sim/props/c14.py; text migration compared on non-empty paragraph texts"),
     "C06": dict(level="exploration", design="3/C06",
                 technique="deterministic simulation: seeded addition histories over id-mutated start decks with held handles, turbo-add buggify knob, checkpoint/restart; uniqueness/range/stability invariants after every event + remembered id->content lookups re-checked later and after restart",
                 text="Seeded search over addition histories on start decks whose stored ids were rewritten by a seeded mutator; after every event newly assigned shape ids (read from the part's XML), slide ids, relationship ids in use and part names are checked for freshness, range, stability and uniqueness, and remembered id lookups must still designate the same content later and after restart.",
